@@ -48,25 +48,29 @@ import (
 // runs).  Every third case does this deterministically at its start (variants by case index, see scripted; that pod is
 // deleted, observed, at the end of the case); every case can do it at random.
 //
-// Specification of the repaired glue (5a63beb MigratePod leaves a target alone that already holds the pod; 931f7a3 the delete
-// handler also clears the default group): between OnQuotaAdd of the awaited quota and the migration call the pod may be
-// updated (status, resize, bind: it is then filed under the new quota by OnPodUpdate and, until the call, ALSO still held by
-// the default group, which is the code's design and accepted by the oracle) or deleted (both places are cleared).
+// Specification of the repaired code (5a63beb MigratePod leaves a target alone that already holds the pod; 931f7a3 the delete
+// handler also clears the default group; 7265fb2 a same-quota OnPodUpdate refreshes the cached object and OnPodDelete gives
+// back the cached object's amounts): every quota, the default group included, accounts the LAST OBJECT ROUTED TO IT, and that
+// is the oracle's truth.  Between OnQuotaAdd of the awaited quota and the migration call the pod may be updated (status,
+// resize, bind: it is then filed under the new quota by OnPodUpdate and, until the call, ALSO still held by the default
+// group with the older object, which is the code's design and accepted by the oracle) or deleted (both places are cleared,
+// each with its own amounts).  The migration hands over the object the default group caches; the harness reads it back from
+// the implementation (GetPodCache) for the op line.
 //
-// VERIF_C01P_FREE (generator level): 1 (default) generates all of that plus D3 - amounts (request / non-preemptible flag) of a
-// pod change while the default group holds it under an awaited label; the migration then uses the stale FIRST object the
-// group cached: registered open finding, fingerprint C01:request-mismatch:stale-cached-pod; the op line carries the stale
-// object (the model follows the code), `mode 0` is emitted and every figure clause of the oracles in the rest of that case
-// reports that fingerprint.  Still NOT generated at level 1, because the repaired code mis-accounts there too and no finding
-// is registered for it: (a) a label change (removed / other quota / awaited quota) while the default group holds the pod -
-// the cached object keeps the old label, so the migration moves the pod into a quota its last object does not name, or never;
-// (b) D4: a pod resized between OnQuotaAdd and the migration call and deleted before the call - 931f7a3 clears the default
-// group with the LAST object's amounts, the group accounted the older ones.  Level 2 generates these too (investigation only:
-// unregistered fingerprints, and a pod held by two quotas of one tree is beyond the bookkeeping).  Level 0 is the generator
-// from before the repairs (nothing happens to a pod in the window, nothing changes while the default group holds it).
-// Silent by construction: a pod reserved or bound while the default group holds it and then migrated across managers is
-// filed unassigned in its quota (OnPodAdd of the stale object without NodeName) until its next event; the oracles take the
-// assigned flags from the live manager, and the next OnPodUpdate assigns it.
+// VERIF_C01P_FREE (generator level): 2 (default) generates all of that: D1 update / bind in the window, D2 delete in the
+// window, D3 resize / non-preemptible flip while the default group holds the pod, D4 resize in the window then delete before
+// the call, D5 label change while the default group holds the pod and its quota does not exist yet, and D6, a label change
+// between OnQuotaAdd of the pod's quota X and the migration call.  D6 is a registered OPEN finding (fingerprint
+// C01:pod-membership:stale-label-after-quota-add): that update is not routed to the default group (the old label resolves to
+// X by now), so the cached object keeps label X and the call files the pod under X although its last object names another
+// quota / none (and, if the new label names an existing quota Y, Y holds it too).  The harness marks the case when it issues
+// such an update; from then on every membership / figure / fresh-manager / default-group clause that fails in that case
+// reports that fingerprint (the op lines keep following the code, the model state keeps satisfying the local equations, so
+// `inv 1` and the correspondence are unaffected).  Level 1 generates everything but D6; level 0 is the generator from before
+// the repairs (nothing happens to a pod in the window, nothing changes while the default group holds it under an awaited label).
+// Silent by construction: a pod reserved while the default group holds it and then migrated across managers is filed
+// unassigned in its quota (OnPodAdd of an object without NodeName) until its next event; the oracles take the assigned flags
+// from the live manager.
 
 const c01pDMax = int64(1) << 60
 
@@ -125,15 +129,14 @@ type c01pWorld struct {
 	label string // value of the quota-tree-id label on the case's quotas ("" = no label)
 	same  bool   // streams B1/B2: the case's quotas live in the default manager
 	dq    int    // model name of koordinator-default-quota when it is part of the observed manager (same), else 0
-	lvl   int    // VERIF_C01P_FREE: 0 = restricted generator, 1 (default) = the repaired windows are generated, 2 = no restriction
-	stale bool   // the glue removed a pod from the default group with an object whose amounts the group did not account (D3)
-	loose bool   // `mode 0` was emitted: the model state is no longer expected to satisfy the local equations
+	lvl   int    // VERIF_C01P_FREE: 0 = restricted generator, 1 = everything but D6, 2 (default) = everything
+	d6    bool   // a pod's quota label changed between OnQuotaAdd of its quota and the migration call while the default group held it
 	specs map[int]*c01pSpec
 	objs  map[int]*schedv1alpha1.ElasticQuota
 	pods  map[int]*c01pPV // last delivered version of every alive pod
 	// specification of the glue's bookkeeping around the default group
-	def    map[int]*c01pPV // pods the default group is specified to cache, with the object it caches (the first one it saw)
-	defAcc map[int]*c01pPV // ... and the object whose amounts it accounts (the last one routed to it)
+	def    map[int]*c01pPV // pods the default group is specified to cache, with the object it caches and accounts: the last one routed to it
+	tmpDef map[int]*c01pPV // (opMigrate only) the same for pods of the running call
 	home   map[int]int     // quota of this case (> 1, not dq) specified to cache the pod; 0: none
 	await  []int           // quota names handed out as pod labels, not created yet
 	nextQ  int
@@ -405,9 +408,7 @@ func (w *c01pWorld) emit(root [2][4]int64, qs map[int]*c01pObsQ) {
 			h.Obs("d %d %d %s", k, n, vInts(q.d[k][:]))
 		}
 	}
-	if !w.loose {
-		h.Obs("inv 1")
-	}
+	h.Obs("inv 1")
 	h.Obs("end")
 }
 
@@ -433,7 +434,7 @@ func (w *c01pWorld) recompute(qs map[int]*c01pObsQ, n, k int, memo map[int]*c01p
 			if pv == nil {
 				continue
 			}
-			if acc := w.defAcc[id]; w.same && n == w.dq && acc != nil {
+			if acc := w.def[id]; w.same && n == w.dq && acc != nil {
 				pv = acc // the default group accounts the object that was routed to it last
 			}
 			r := pv.req[k]
@@ -472,25 +473,34 @@ func (w *c01pWorld) recompute(qs map[int]*c01pObsQ, n, k int, memo map[int]*c01p
 	return a
 }
 
-// c01pStaleFP is the registered open finding D3 (known_findings.json): the plugin's migration hands MigratePod / OnPodAdd /
-// OnPodDelete the FIRST object the default group cached, not the amounts the group accounts.
-const c01pStaleFP = "C01:request-mismatch:stale-cached-pod"
+// c01pD6FP is the registered open finding D6 (known_findings.json): an update that changes the quota label of a pod between
+// OnQuotaAdd(X) and the migration call is not routed to the default group, whose cached object keeps label X; the call then
+// files the pod under X although its last object names another quota / none (and a named existing quota holds it too).
+const c01pD6FP = "C01:pod-membership:stale-label-after-quota-add"
 
 func (w *c01pWorld) bad(fp, f string, a ...interface{}) {
 	if w.fail {
 		return
 	}
 	w.fail = true
-	if w.stale {
-		switch fp {
-		case "C01:quota-set", "C01:pod-membership", "C01:default-group-membership":
-		default: // a figure mismatch after a pod of this history was migrated with a stale cached object
-			w.h.Tag("pl:known-finding-stale-cached-pod")
-			w.h.Fail(c01pStaleFP, "[after a migration with a stale cached pod object; clause "+fp+"] "+f, a...)
-			return
-		}
+	if w.d6 && fp != "C01:quota-set" {
+		// membership, and the figure / fresh-manager / default-group clauses that follow from a pod in the wrong or in two quotas
+		w.h.Tag("pl:known-finding-stale-label-after-quota-add")
+		w.h.Fail(c01pD6FP, "[after a pod was relabelled between OnQuotaAdd of its quota and the migration call; clause "+fp+"] "+f, a...)
+		return
 	}
 	w.h.Fail(fp, f, a...)
+}
+
+// holds reads the IMPLEMENTATION: does quota n of the observed manager cache the pod?  Only used to decide how many op lines /
+// observation blocks one plugin call needs (a line for a quota that does not cache the pod is a no-op for the model anyway).
+func (w *c01pWorld) holds(n int, pod *corev1.Pod) bool {
+	mgr := w.mgr()
+	if mgr == nil || n <= 1 {
+		return false
+	}
+	qi := mgr.GetQuotaInfoByName(w.qname(n))
+	return qi != nil && qi.IsPodExist(pod)
 }
 
 func c01pAmtDiff(a, b *c01pPV) bool { return a.req != b.req || a.np != b.np }
@@ -638,7 +648,7 @@ func (w *c01pWorld) oracleDefault() {
 	}
 	for k := 0; k < 2; k++ {
 		var want [4]int64
-		for id, pv := range w.defAcc {
+		for id, pv := range w.def {
 			r := pv.req[k]
 			want[2] += r
 			if pv.np {
@@ -696,8 +706,12 @@ func (w *c01pWorld) freshBuild(qs map[int]*c01pObsQ, place func(n, id int) int) 
 			if pv == nil || to == 0 {
 				continue
 			}
-			if acc := w.defAcc[id]; w.same && to == w.dq && acc != nil {
-				pv = acc
+			if w.same && to == w.dq {
+				if acc := w.def[id]; acc != nil {
+					pv = acc
+				} else if acc := w.tmpDef[id]; acc != nil {
+					pv = acc
+				}
 			}
 			name := w.qname(to)
 			fresh.OnPodAdd(name, pv.obj)
@@ -819,6 +833,8 @@ func (w *c01pWorld) opPodAdd(force int) int {
 	pv := &c01pPV{id: w.nextP, np: r.Chance(1, 3), node: r.Chance(1, 4), term: r.Chance(1, 15), rv: 1}
 	w.nextP++
 	switch {
+	case force < 0: // no quota label
+		pv.label = 0
 	case force > 2: // a further pod awaiting the quota named force
 		pv.label = force
 	case force != 0:
@@ -850,11 +866,11 @@ func (w *c01pWorld) opPodAdd(force int) int {
 	case q == 0:
 		h.Op("refresh 0")
 		h.Tag("pl:pod-add-default-tree")
-		w.def[pv.id], w.defAcc[pv.id] = pv, pv
+		w.def[pv.id] = pv
 	case q == w.dq:
 		h.Op("padd %d %s", q, w.toks(pv))
 		h.Tag("pl:pod-add-default-group")
-		w.def[pv.id], w.defAcc[pv.id] = pv, pv
+		w.def[pv.id] = pv
 	default:
 		h.Op("padd %d %s", q, w.toks(pv))
 		w.home[pv.id] = q
@@ -879,17 +895,29 @@ func (w *c01pWorld) opPodUpdate(id int, force int) {
 	if force >= 0 {
 		kind = force
 	}
-	if w.lvl < 2 {
-		// see the header: what is not generated for a pod the default group holds
+	if force >= 100 {
+		kind = 10 // relabel with the quota named force-100
+		nv.label = force - 100
+	}
+	if len(qids) == 0 && (kind == 5 || kind == 6) {
+		kind = 9 // no quota to move to (scripted call after the random steps deleted them all)
+	}
+	if w.lvl == 1 && w.eligible(id) && (kind == 5 || kind == 6 || kind == 8 || kind == 10) {
+		// D6 (see the header): no label change between OnQuotaAdd of the pod's quota and the migration call
+		kind = 9
+		nv.label = old.label
+	}
+	if w.lvl == 0 {
+		// the restricted generator: nothing relevant happens to a pod the default group holds under an awaited label
 		switch {
 		case w.waiting(id):
-			if w.lvl == 0 && kind != 5 && kind != 7 || kind == 6 || kind == 8 {
+			if kind != 5 && kind != 7 {
 				kind = 9
 			}
+		case w.eligible(id) && w.same:
+			kind = 7
 		case w.eligible(id):
-			if w.lvl == 0 && w.same {
-				kind = 7
-			} else if kind == 5 || kind == 6 || kind == 8 {
+			if kind == 5 || kind == 6 || kind == 8 {
 				kind = 9
 			}
 		case w.def[id] != nil:
@@ -915,8 +943,10 @@ func (w *c01pWorld) opPodUpdate(id int, force int) {
 	case 7: // same resourceVersion: a resync, ignored by the plugin
 		nv.rv = old.rv
 		nv.req[0] = w.val(0, 8)
-	case 8: // relabelled with a quota that does not exist yet
-		if w.canAwait() {
+	case 8: // relabelled with a quota that does not exist yet (a new awaited name, or one other pods wait for)
+		if len(w.await) > 0 && (!w.canAwait() || r.Chance(1, 3)) {
+			nv.label = w.await[r.Intn(len(w.await))]
+		} else if w.canAwait() {
 			nv.label = w.newAwait()
 		}
 	default: // nothing but the resourceVersion changes (status update)
@@ -925,25 +955,27 @@ func (w *c01pWorld) opPodUpdate(id int, force int) {
 	ro, rn := w.res(old), w.res(&nv)
 	h.Tag("pl:pod-update")
 	if nv.rv != old.rv {
-		if w.eligible(id) {
+		switch {
+		case w.eligible(id):
 			h.Tag("pl:pod-update-between-quota-add-and-migration")
 			if nv.node && !old.node {
 				h.Tag("pl:pod-bound-between-quota-add-and-migration")
 			}
-		} else if w.waiting(id) && c01pAmtDiff(&nv, old) {
-			h.Tag("pl:pod-resized-while-default-group-holds-it-awaiting")
+			if c01pAmtDiff(&nv, old) {
+				h.Tag("pl:pod-resized-between-quota-add-and-migration")
+			}
+			if nv.label != old.label {
+				h.Tag("pl:pod-relabelled-between-quota-add-and-migration")
+				w.d6 = true
+			}
+		case w.def[id] != nil && c01pAmtDiff(&nv, old):
+			h.Tag("pl:pod-resized-while-default-group-holds-it")
+		case w.def[id] != nil && nv.label != old.label:
+			h.Tag("pl:pod-relabelled-while-default-group-holds-it")
 		}
 	}
-	// enter / leave: bookkeeping of "add if the quota does not cache it" / "remove if it does" (core OnPodAdd/Update/Delete)
-	enterDef := func() {
-		if w.def[id] == nil {
-			w.def[id], w.defAcc[id] = &nv, &nv
-		}
-	}
-	leaveDef := func() {
-		delete(w.def, id)
-		delete(w.defAcc, id)
-	}
+	// bookkeeping of core OnPodAdd / OnPodUpdate / OnPodDelete: "add if the quota does not cache the pod", "remove if it does",
+	// "a same-quota update refreshes the cached object" (7265fb2)
 	switch {
 	case nv.rv == old.rv:
 		h.Op("refresh 0")
@@ -955,7 +987,7 @@ func (w *c01pWorld) opPodUpdate(id int, force int) {
 				if w.def[id] != nil {
 					h.Tag("pl:pod-update-leaves-default-group")
 				}
-				leaveDef()
+				delete(w.def, id)
 			} else if w.home[id] == ro {
 				w.home[id] = 0
 			}
@@ -963,9 +995,9 @@ func (w *c01pWorld) opPodUpdate(id int, force int) {
 		if rn == w.dq {
 			if w.def[id] == nil {
 				h.Tag("pl:pod-update-enters-default-group")
-				enterDef()
+				w.def[id] = &nv
 			} else if ro == rn {
-				w.defAcc[id] = &nv
+				w.def[id] = &nv
 			}
 		} else {
 			w.home[id] = rn
@@ -979,19 +1011,17 @@ func (w *c01pWorld) opPodUpdate(id int, force int) {
 		if w.home[id] == ro {
 			w.home[id] = 0
 		}
-		enterDef()
+		if w.def[id] == nil {
+			w.def[id] = &nv
+		}
 	case rn != 0: // cross-tree: OnPodDelete in the default manager, OnPodAdd in the tree
 		h.Op("padd %d %s", rn, w.toks(&nv))
 		h.Tag("pl:pod-update-enters-tree")
-		leaveDef()
+		delete(w.def, id)
 		w.home[id] = rn
 	default: // OnPodUpdate inside the default manager
 		h.Op("refresh 0")
-		if w.def[id] == nil {
-			enterDef()
-		} else {
-			w.defAcc[id] = &nv
-		}
+		w.def[id] = &nv
 	}
 	if nv.rv != old.rv {
 		w.pods[nv.id] = &nv
@@ -1003,44 +1033,36 @@ func (w *c01pWorld) opPodUpdate(id int, force int) {
 	w.observe()
 }
 
-// deletable: see the header (finding D4): not generated below level 2 for a pod that was resized between the creation of its
-// awaited quota and the migration call - the delete handler then clears the default group with the wrong amounts.
-func (w *c01pWorld) deletable(id int) bool {
-	switch {
-	case w.lvl >= 2:
-		return true
-	case w.lvl == 0:
-		return !w.eligible(id)
-	}
-	return !(w.eligible(id) && c01pAmtDiff(w.pods[id], w.defAcc[id]))
-}
+func (w *c01pWorld) deletable(id int) bool { return w.lvl != 0 || !w.eligible(id) }
 
-// opPodDelete: OnPodDelete.  Specification (pod_handler.go, repaired by 931f7a3): OnPodDelete(resolved quota, object) in the
-// manager of that quota and, when the resolved quota is not the default group, also OnPodDelete(default group, object) in the
-// default manager.  Op lines are emitted only for the quotas that cache the pod; when both the resolved quota and the default
-// group do (default-manager streams, pod updated between OnQuotaAdd and the migration call) the model needs two lines and a
-// block in between: the harness exposes that state by calling core OnPodDelete(resolved quota) itself first, so the plugin
-// call that follows has only the default group left to clear.
+// opPodDelete: OnPodDelete.  Specification (pod_handler.go, 931f7a3): OnPodDelete(resolved quota, object) in the manager of
+// that quota and, when the resolved quota is not the default group, also OnPodDelete(default group, object) in the default
+// manager; each quota gives back the amounts of ITS cached object (7265fb2).  Op lines are emitted only for the quotas that
+// cache the pod; when both the resolved quota and the default group do (default-manager streams, pod updated between
+// OnQuotaAdd and the migration call) the model needs two lines and a block in between: the harness exposes that state by
+// calling core OnPodDelete(resolved quota) itself first, so the plugin call that follows has only the default group left.
 func (w *c01pWorld) opPodDelete(id int) {
 	r, h := w.r, w.h
 	pv := w.pods[id]
 	h.Tag("pl:pod-delete")
 	q := w.res(pv)
-	inQ := q != 0 && q != w.dq && w.home[id] == q
+	inQ := q != 0 && q != w.dq && w.holds(q, pv.obj)
 	inDef := w.def[id] != nil
-	if inDef && w.def[id].label > 1 {
+	if w.same {
+		inDef = w.holds(w.dq, pv.obj)
+	}
+	if w.def[id] != nil && w.def[id].label > 1 {
 		if w.eligible(id) {
 			h.Tag("pl:pod-delete-between-quota-add-and-migration")
+			if c01pAmtDiff(pv, w.def[id]) {
+				h.Tag("pl:pod-delete-between-quota-add-and-migration-after-resize")
+			}
 		} else {
 			h.Tag("pl:pod-delete-in-default-group-awaiting")
 		}
 	}
-	if inDef && c01pAmtDiff(pv, w.defAcc[id]) {
-		w.markStale() // level 2 only (D4)
-	}
-	two := w.same && inQ && inDef
 	switch {
-	case two:
+	case w.same && inQ && inDef:
 		h.Op("pdel %d %s", q, w.toks(pv))
 		h.Tag("pl:pod-delete-from-quota-and-default-group")
 		if h.Guard(func() { w.mgr().OnPodDelete(w.qname(q), pv.obj) }) {
@@ -1057,7 +1079,6 @@ func (w *c01pWorld) opPodDelete(id int) {
 		h.Op("refresh 0")
 	}
 	delete(w.def, id)
-	delete(w.defAcc, id)
 	if w.home[id] == q {
 		delete(w.home, id)
 	}
@@ -1071,19 +1092,6 @@ func (w *c01pWorld) opPodDelete(id int) {
 		return
 	}
 	w.observe()
-}
-
-// markStale: from here on the accounting is wrong in the way of the registered finding D3; the model is fed what the code
-// really does (the stale object), so it reproduces the wrong figures, but its state no longer satisfies the local equations.
-func (w *c01pWorld) markStale() {
-	if !w.stale {
-		w.stale = true
-		w.h.Tag("pl:stale-cached-pod-migrated")
-	}
-	if !w.loose {
-		w.loose = true
-		w.h.Op("mode 0")
-	}
 }
 
 func (w *c01pWorld) opReserve(id int, un bool) {
@@ -1115,74 +1123,104 @@ func (w *c01pWorld) opReserve(id int, un bool) {
 	w.observe()
 }
 
-// opMigrate calls the plugin's periodic migration once.  Specification (plugin_helper.go): every pod cached by the default
-// group whose CACHED object names a quota the plugin knows leaves the default group (amounts of the cached object are
-// subtracted); if that quota lives in another manager (stream A) that manager gets OnPodAdd(quota, cached object) (no effect,
-// and no op line, when it already caches the pod), otherwise (stream B) the default manager runs
+// pvOf reads a cached pod object of this case back into the harness' representation (the 7 tokens of an op line + label).
+func (w *c01pWorld) pvOf(p *corev1.Pod) *c01pPV {
+	pv := &c01pPV{obj: p}
+	fmt.Sscanf(p.Name, "p%d", &pv.id)
+	if len(p.Spec.Containers) > 0 {
+		rl := p.Spec.Containers[0].Resources.Requests
+		pv.req = [2]int64{c01pVal(rl, 0), c01pVal(rl, 1)}
+	}
+	pv.np = p.Labels[extension.LabelPreemptible] == "false"
+	pv.node = p.Spec.NodeName != ""
+	pv.term = p.Status.Phase == corev1.PodSucceeded || p.Status.Phase == corev1.PodFailed
+	if name, ok := p.Labels[extension.LabelQuotaName]; ok {
+		pv.label = w.qid(name)
+		if pv.label <= 1 {
+			pv.label = -1
+		}
+	}
+	return pv
+}
+
+// opMigrate calls the plugin's periodic migration once and drives it end to end: the op lines are built from the objects the
+// IMPLEMENTATION's default group caches (read back through GetPodCache before the call), the oracle's expectation from the
+// harness' own bookkeeping.  Specification (plugin_helper.go): every pod cached by the default group whose cached object
+// (since 7265fb2: the last object routed to the default group) names a quota the plugin knows leaves the default group;
+// if that quota lives in another manager (stream A) that manager gets OnPodAdd(quota, cached object) (no effect, and no op
+// line, when it already caches the pod), otherwise (stream B) the default manager runs
 // MigratePod(cached object, default, quota), which since 5a63beb leaves a target that already holds the pod alone.
-// The cached object is the FIRST one the default group saw: when the pod's amounts changed since (D3, registered finding)
-// the line carries that stale object, `mode 0` is emitted and the oracle's figure clauses report the registered fingerprint.
 // One call can move several pods (the order, a Go map iteration, does not matter for the figures); the model driver wants one
 // operation and one observation block per pod.  The blocks between them - states the call never exposes - are read off fresh
 // managers fed the final objects with the pods that are moved later still left out (stream A) / still in the default group
-// (stream B); when that is not possible (a stale object involved, or a pod both quotas hold) the harness performs the
-// specified core calls for all but the last pod itself and lets the plugin's call do the rest.  The block after the last
-// line is the live observation after the plugin's call, as everywhere.
+// (stream B); when a target already holds a pod (stream B) the harness performs the specified core calls for all but the
+// last pod itself and lets the plugin's call do the rest.  The block after the last line is the live observation after the
+// plugin's call, as everywhere.
 func (w *c01pWorld) opMigrate() {
 	h := w.h
 	type mv struct {
 		id, x int
 		d     *c01pPV
 	}
-	var ids []int
+	var cached []*c01pPV
+	prefix := fmt.Sprintf("vns%d/", w.idx)
+	if qi := w.pl.groupQuotaManager.GetQuotaInfoByName(extension.DefaultQuotaName); qi != nil {
+		for key, pod := range qi.GetPodCache() {
+			if strings.HasPrefix(key, prefix) {
+				cached = append(cached, w.pvOf(pod))
+			}
+		}
+	}
+	sort.Slice(cached, func(i, j int) bool { return cached[i].id < cached[j].id })
 	var moved []mv
-	for id := range w.def {
-		if w.eligible(id) {
-			ids = append(ids, id)
-		}
-	}
-	sort.Ints(ids)
-	for _, id := range ids {
-		if c01pAmtDiff(w.def[id], w.defAcc[id]) {
-			w.markStale() // `mode 0` goes before the first line of the call
-		}
-	}
 	direct := false
-	for _, id := range ids {
-		d := w.def[id]
-		x := d.label
+	w.tmpDef = map[int]*c01pPV{}
+	for _, d := range cached {
+		x, id := d.label, d.id
+		if x <= 1 || x == w.dq || w.specs[x] == nil {
+			continue
+		}
 		kind := "pending"
-		if live := w.pods[id]; live != nil && live.node && !live.term {
+		if d.node && !d.term {
 			kind = "bound"
 		}
 		switch {
 		case w.same:
-			if w.home[id] == x {
+			if w.holds(x, d.obj) {
 				direct = true
 				h.Tag("pl:migrate-same-manager-target-holds-pod")
 			}
 			h.Op("migrate %d %d %s", w.dq, x, w.toks(d))
 			moved = append(moved, mv{id, x, d})
 			h.Tag("pl:migrate-same-manager-" + kind)
-		case w.home[id] != x:
+		case !w.holds(x, d.obj):
 			h.Op("padd %d %s", x, w.toks(d))
 			moved = append(moved, mv{id, x, d})
 			h.Tag("pl:migrate-cross-tree-" + kind)
 		default:
 			h.Tag("pl:migrate-cross-tree-already-there")
 		}
-		w.home[id] = x
-		delete(w.def, id)
-		delete(w.defAcc, id)
+		w.tmpDef[id] = d
+	}
+	// expectation: what the harness' bookkeeping says the default group holds and must hand over
+	nspec := 0
+	for id := range w.def {
+		if w.eligible(id) {
+			nspec++
+			if w.home[id] == 0 || w.same && w.home[id] != w.def[id].label {
+				w.home[id] = w.def[id].label
+			}
+			delete(w.def, id)
+		}
 	}
 	if len(moved) == 0 {
 		h.Op("refresh 0")
-		if len(ids) == 0 {
+		if nspec == 0 {
 			h.Tag("pl:migrate-nothing")
 		}
 	}
 	h.Tag("pl:migrate-call")
-	direct = direct || w.stale
+	direct = direct || w.d6
 	if len(moved) > 1 && direct {
 		h.Tag("pl:migrate-several-pods-stepwise")
 		for _, m := range moved[:len(moved)-1] {
@@ -1222,6 +1260,7 @@ func (w *c01pWorld) opMigrate() {
 			w.emit(w.snapshot(fresh, fresh.GetQuotaSummaries(true)))
 		}
 	}
+	w.tmpDef = nil
 	w.observe()
 }
 
@@ -1364,13 +1403,19 @@ func (w *c01pWorld) step() {
 
 // scripted: the migration scenario, deterministically: a pod (pending or bound) labelled with a quota that does not exist
 // yet, possibly reserved while the default group holds it, then OnQuotaAdd of that quota, then the plugin's migration.
-// variant (fixed by the case index): 1 = the pod is updated (status only / resized / bound) between OnQuotaAdd and the
-// migration call (D1, repaired by 5a63beb), 2 = it is deleted in that window (D2, repaired by 931f7a3), 3 = it is resized /
-// its non-preemptible flag flips while the default group holds it, before the quota exists (D3, registered finding; level >= 1),
-// 4 = a second pod waits for the same quota, 0 = nothing special.
+// variant (fixed by the case index; 1-3, 5, 6 need the free generator):
+//
+//	0 nothing special          4 a second pod waits for the same quota (one call moves both)
+//	1 D1 the pod is updated (status only / resized / bound) between OnQuotaAdd and the migration call (5a63beb)
+//	2 D2 it is deleted in that window (931f7a3)
+//	3 D3 it is resized / its non-preemptible flag flips while the default group holds it, before the quota exists (7265fb2)
+//	5 D4 it is resized in the window and deleted before the migration call (7265fb2)
+//	6 D5 its label changes while the default group holds it, before the quota exists: removed / unknown / another quota /
+//	     another awaited quota - or it starts unlabelled and gets the awaited label (7265fb2)
+//	7 D6 its label changes between OnQuotaAdd and the migration call (registered open finding, own fingerprint)
 func (w *c01pWorld) scripted(variant int) int {
 	r := w.r
-	if w.lvl == 0 && variant < 4 {
+	if w.lvl == 0 && variant != 4 {
 		variant = 0
 	}
 	for i := r.Range(1, 2); i > 0; i-- {
@@ -1382,15 +1427,27 @@ func (w *c01pWorld) scripted(variant int) int {
 	}
 	id := w.opPodAdd(force)
 	f := w.pods[id].label
+	if variant == 6 && r.Chance(1, 3) {
+		// a pod without label, held by the default group, gets the awaited label
+		id2 := w.opPodAdd(-1)
+		w.opPodUpdate(id2, 100+f)
+		w.h.Tag("pl:scripted-D5-unlabelled-pod-gets-awaited-label")
+	}
 	for i := r.Intn(3); i > 0; i-- {
 		w.step()
 	}
 	if pv := w.pods[id]; pv != nil && w.waiting(id) && !pv.node && r.Chance(1, 3) {
 		w.opReserve(id, false)
 	}
-	if variant == 3 && w.pods[id] != nil && w.waiting(id) {
-		w.opPodUpdate(id, r.Intn(2))
-		w.h.Tag("pl:scripted-D3-resize-while-awaiting")
+	if w.pods[id] != nil && w.waiting(id) {
+		switch variant {
+		case 3:
+			w.opPodUpdate(id, r.Intn(2))
+			w.h.Tag("pl:scripted-D3-resize-while-awaiting")
+		case 6:
+			w.opPodUpdate(id, []int{6, 6, 5, 8}[r.Intn(4)])
+			w.h.Tag("pl:scripted-D5-relabel-while-awaiting")
+		}
 	}
 	if w.specs[f] == nil && (variant == 4 || r.Chance(1, 4)) {
 		w.opPodAdd(f) // a second pod waiting for the same quota: one migration call moves both
@@ -1409,6 +1466,15 @@ func (w *c01pWorld) scripted(variant int) int {
 		case 2:
 			w.opPodDelete(id)
 			w.h.Tag("pl:scripted-D2-delete-in-window")
+		case 5:
+			w.opPodUpdate(id, r.Intn(2))
+			w.opPodDelete(id)
+			w.h.Tag("pl:scripted-D4-resize-then-delete-in-window")
+		case 7:
+			if w.lvl >= 2 {
+				w.opPodUpdate(id, []int{6, 6, 5, 8}[r.Intn(4)]) // label removed / unknown / an existing quota / an awaited quota
+				w.h.Tag("pl:scripted-D6-relabel-in-window")
+			}
 		}
 	}
 	if r.Chance(1, 3) {
@@ -1448,9 +1514,9 @@ func (w *c01pWorld) cleanup() {
 	if fig != w.base {
 		w.bad("C01:default-group-residue", "after every pod of the case was deleted the default group reports %v, before the case %v (used npUsed request npRequest per dimension)", fig, w.base)
 	}
-	if fig != ([2][4]int64{}) {
-		// D3 leaves amounts in the default group for good; the next case starts from a clean default manager (no pod and no quota
-		// of any case is left in it), built the way the plugin builds it
+	if fig != ([2][4]int64{}) || w.same && w.d6 {
+		// a finding can leave amounts / a pod in the default manager for good; the next case starts from a clean default manager
+		// (no pod and no quota of any case is left in it), built the way the plugin builds it
 		pl.groupQuotaManager = core.NewGroupQuotaManager("", pl.pluginArgs.EnableMinQuotaScale, pl.pluginArgs.SystemQuotaGroupMax, pl.pluginArgs.DefaultQuotaGroupMax)
 		_ = pl.groupQuotaManager.InitHookPlugins(pl.pluginArgs)
 		w.h.Tag("pl:default-manager-reset-after-residue")
@@ -1466,12 +1532,12 @@ func TestVerifC01Plugin(t *testing.T) {
 	suit := newPluginTestSuit(t, nil)
 	pl := suit.createPlugin(t).(*Plugin)
 	setLoglevel("0")
-	lvl := 1
+	lvl := 2
 	switch os.Getenv("VERIF_C01P_FREE") {
 	case "0":
 		lvl = 0
-	case "2":
-		lvl = 2
+	case "1":
+		lvl = 1
 	}
 	n := h.N(150, 3000)
 	for idx := 0; idx < n; idx++ {
@@ -1480,7 +1546,7 @@ func TestVerifC01Plugin(t *testing.T) {
 			continue
 		}
 		w := &c01pWorld{h: h, r: r, pl: pl, idx: idx, lvl: lvl, specs: map[int]*c01pSpec{},
-			objs: map[int]*schedv1alpha1.ElasticQuota{}, pods: map[int]*c01pPV{}, def: map[int]*c01pPV{}, defAcc: map[int]*c01pPV{},
+			objs: map[int]*schedv1alpha1.ElasticQuota{}, pods: map[int]*c01pPV{}, def: map[int]*c01pPV{},
 			home: map[int]int{}, nextQ: 2, nextP: 1}
 		restore := func() {}
 		switch {
@@ -1512,7 +1578,7 @@ func TestVerifC01Plugin(t *testing.T) {
 		mid := r.Range(5, nops-1)
 		target := 0
 		if idx%3 == 0 {
-			target = w.scripted((idx / 3) % 5)
+			target = w.scripted((idx / 3) % 8)
 			nops -= 6
 		}
 		for i := 0; i < nops; i++ {
@@ -1542,9 +1608,11 @@ func TestVerifC01Plugin(t *testing.T) {
 		"quota label present / absent / unknown / moved / naming a quota that is created later, same-ResourceVersion resyncs, DeletedFinalStateUnknown, duplicate OnQuotaAdd) in one shared plugin; " +
 		"stream A (5/8): MultiQuotaTree on, one quota tree per case, default group checked by a Go oracle, migration = OnPodAdd of the object cached by the default group; " +
 		"streams B1 (1/4, no tree label) and B2 (1/8, MultiQuotaTree off): the case's quotas live in the default manager, koordinator-default-quota is an observed quota, migration = MigratePod(default -> X); " +
-		"every third case starts with the scripted scenario pod (pending | bound | reserved in the default group) before quota -> OnQuotaAdd -> migration -> ... -> delete, in five variants by index: plain, " +
-		"D1 pod updated/bound between OnQuotaAdd and the migration call, D2 pod deleted in that window, D3 pod resized while the default group holds it (registered finding, own fingerprint), two pods in one call; " +
-		"the same happens at random in every case (VERIF_C01P_FREE=0 restores the restricted generator); " +
+		"the migration's op lines are built from the objects read back from the implementation's default group; " +
+		"every third case starts with the scripted scenario pod (pending | bound | reserved in the default group) before quota -> OnQuotaAdd -> migration -> ... -> delete, in eight variants by index: plain, " +
+		"D1 pod updated/bound between OnQuotaAdd and the migration call, D2 deleted in that window, D3 resized while the default group holds it, two pods in one call, D4 resized in the window then deleted before the call, " +
+		"D5 relabelled while the default group holds it before its quota exists, D6 relabelled between OnQuotaAdd and the call (registered finding, own fingerprint); " +
+		"the same happens at random in every case (VERIF_C01P_FREE=0 restores the restricted generator, =1 everything but D6); " +
 		"a fresh manager is fed the final objects in the middle and at the end of every case; " +
 		"non-trivial = some quota's request exceeded its max")
 }
